@@ -27,7 +27,7 @@ counters! {
     w_calls, w_accept, w_short, w_eintr, w_hard_transient, w_hard_sticky, w_full, w_lost, w_crash, w_reenter,
     w_after_crash_ignored,
     flush_calls, flush_ok, flush_err, flush_crash,
-    bufwriter_runs, sync_each_write_runs, pretty_runs,
+    bufwriter_runs, sync_each_write_runs, pretty_runs, fresh_instance_runs,
     // write phase outcomes
     wr_acknowledged, wr_failed_honestly, wr_crashed, wr_corrupted_by_medium,
     // recovery phase
@@ -45,7 +45,7 @@ counters! {
     probe_bufwriter_flush_failure_after_clean_display, probe_max_safe_integer_component,
     probe_fault_between_list_items, probe_sticky_then_bufwriter_drop,
     // bookkeeping
-    known_finding_hits, violations, advisory_reentrancy_observations,
+    known_finding_hits, violations, advisory_reentrancy_observations, advisory_protocol_observations, advisory_robustness_observations,
 }
 
 #[derive(Clone, Debug)]
@@ -60,7 +60,7 @@ pub struct Stats {
     /// per-run digest of the event log, xor-folded with the run index (order independent)
     pub log_digest: u64,
     /// first few advisory observations (runs with re-entrant operations): (class, detail)
-    pub advisory_samples: Vec<(String, String)>,
+    pub advisory_samples: Vec<(String, String, &'static str)>,
 }
 
 impl Default for Stats {
@@ -97,7 +97,7 @@ impl Stats {
         self.nontrivial_keys.extend(other.nontrivial_keys);
         self.log_digest = self.log_digest.wrapping_add(other.log_digest);
         for a in other.advisory_samples {
-            if self.advisory_samples.len() < 8 && !self.advisory_samples.iter().any(|x| x.0 == a.0) {
+            if self.advisory_samples.len() < 12 && !self.advisory_samples.iter().any(|x| x.0 == a.0 && x.2 == a.2) {
                 self.advisory_samples.push(a);
             }
         }
